@@ -99,7 +99,9 @@ func (v Version) StringWithoutEpoch() string {
 }
 
 func (v Version) String() string {
-	if v.Epoch > 0 {
+	if v.Epoch > 0 || strings.Contains(v.Version, ":") {
+		/* A colon in the upstream version is only valid behind an epoch,
+		 * so a zero epoch has to be spelled out in that case. */
 		return fmt.Sprintf("%d:%s", v.Epoch, v.StringWithoutEpoch())
 	}
 	return v.StringWithoutEpoch()
